@@ -513,6 +513,34 @@ def check_sampling_pairs_keys_with_probabilities(ctx):
     ctx.check(not kops and not vops, R6, f.key + ":pairing", "population and weights are the dictionary's keys() and values(), neither re-ordered", f"the population is the distribution's keys through {kops or 'no re-ordering'} and the weights its values through {vops or 'no re-ordering'}: position i of one no longer belongs to position i of the other, so outcomes are drawn with each other's probabilities whenever the dictionary is not already in that order", where)
 
 
+def check_elimination_deficit(ctx):
+    """_check_sample_elimination trims each drawn outcome to what is present and re-draws the deficit. The number re-drawn has to be
+    the *whole* deficit of the pass: either one outcome is handled per pass (`break` right after it) or the deficits are added up.
+    A plain assignment inside a loop that goes on overwrites the deficit of every outcome but the last, so fewer shots are removed
+    than requested and the result has more than N shots."""
+    f = ctx.repo.func(f"{MS}:_check_sample_elimination")
+    ctx.analysed(f)
+    whiles = [w for w in body_walk(f.node) if isinstance(w, ast.While)]
+    if len(whiles) != 1:
+        ctx.undecided(R6, f.key + ":deficit", "expected one re-check loop", f)
+        return
+    names = {n.id for n in ast.walk(whiles[0].test) if isinstance(n, ast.Name)}
+    loops = [l for l in ast.walk(whiles[0]) if isinstance(l, ast.For)]
+    found = False
+    for loop in loops:
+        for iff in [x for x in ast.walk(loop) if isinstance(x, ast.If)]:
+            for st in iff.body:
+                if isinstance(st, ast.Assign) and isinstance(st.targets[0], ast.Name) and st.targets[0].id in names and isinstance(st.value, ast.BinOp) and isinstance(st.value.op, ast.Sub):
+                    found = True
+                    leaves = any(isinstance(x, ast.Break) for x in iff.body)
+                    ctx.check(leaves, R6, f.key + ":deficit", "one outcome per pass: the loop is left right after its deficit was recorded", f"`{short(st)}` records the deficit of one outcome by plain assignment while the loop over the outcomes goes on: a second outcome that cannot be removed overwrites it, so only the last deficit is re-drawn and the returned counter asks for fewer removals than were requested (the caller ends up with more than N shots)", f"{f.module.relpath}:{st.lineno}")
+                elif isinstance(st, ast.AugAssign) and isinstance(st.target, ast.Name) and st.target.id in names and isinstance(st.op, ast.Add):
+                    found = True
+                    ctx.ok(R6, f.key + ":deficit", "deficits of a pass are added up", f"{f.module.relpath}:{st.lineno}")
+    if not found:
+        ctx.undecided(R6, f.key + ":deficit", "cannot find where the deficit of an outcome is recorded", f)
+
+
 def check_purity(ctx):
     from .c20 import effects_for
 
@@ -555,6 +583,7 @@ def run(ctx):
     check_scale(ctx)
     check_representing(ctx)
     check_sampling_pairs_keys_with_probabilities(ctx)
+    check_elimination_deficit(ctx)
     check_purity(ctx)
     ctx.floor("C13-D1", 4)
     ctx.floor("C13-D2", 2)
